@@ -166,6 +166,43 @@ def upvar_of(base):
     return None
 
 
+def upvar_ptr(base):
+    """(k, depth) if base is the pointee of a pointer held in closure upvar k: depth 1 = the upvar is the pointer (captured by value, or a
+    by-reference upvar's own pointee), depth 2 = the upvar is a reference to a local that holds the pointer."""
+    k = upvar_of(base)
+    if k is not None:
+        return k, 1
+    if isinstance(base, tuple) and len(base) == 2 and base[0] == "obj":
+        c = base[1]
+        if isinstance(c, tuple) and len(c) == 2 and c[0] == "cell" and isinstance(c[1], tuple) and len(c[1]) == 2 and c[1][1] == ():
+            k = upvar_of(c[1][0])
+            if k is not None:
+                return k, 2
+    return None
+
+
+def indexed_slot(a, p):
+    """A pointer `upvar_base.add(i)` with i a closure parameter (an index yielded by a range): (k, depth, i) - the slot is element i of the
+    storage the upvar points to. None otherwise."""
+    if not (p[0] == "P" and not param_derived(p[1])):
+        return None
+    up = upvar_ptr(p[1])
+    if up is None:
+        return None
+    ats = [x for x in p[2].atoms() if isinstance(x, tuple) and x and x[0] == "arg" and isinstance(x[1], int) and x[1] >= 2]
+    if len(ats) != 1:
+        return None
+    i = Poly.atom(ats[0])
+    # offset == size_of(element) * i exactly: the coefficient of the index atom is a single S(..) atom, nothing else in the offset
+    rest = p[2]
+    if len(rest.t) != 1:
+        return None
+    (mono, coeff), = rest.t.items()
+    if coeff != 1 or ats[0] not in mono:
+        return None
+    return up[0], up[1], i
+
+
 def closure_events(a, cl, region=None):
     """Ordered events per block of a step body: list of (bb, order, kind, data).  A step is a closure body (region None: slots are
     pointers derived from the closure's item parameters, positions are by-reference upvars) or one iteration of a loop over an iterator
@@ -173,6 +210,8 @@ def closure_events(a, cl, region=None):
     ev = []
     if region is not None:
         return region.events(cl)
+    indexed = []
+    a.__dict__["indexed_slots"] = indexed
     for c in a.calls:
         order = 10 ** 6
         kind = None
@@ -180,6 +219,11 @@ def closure_events(a, cl, region=None):
             kind, data = "read", repr(c.args[0][1])
         elif c.fn in ("core::ptr::write", "core::mem::MaybeUninit::<T>::write") and c.args[0][0] == "P" and param_derived(c.args[0][1]):
             kind, data = "write", repr(c.args[0][1])
+        elif c.fn in ("core::ptr::read", "core::ptr::read_unaligned", "core::ptr::write") and c.args[0][0] == "P" and indexed_slot(a, c.args[0]) is not None:
+            # index-addressed slot: element i of the storage an upvar points to, i being the closure's index parameter
+            k_, depth, ix = indexed_slot(a, c.args[0])
+            kind, data = ("read" if "read" in c.fn else "write"), repr(("ix", k_, depth, ix))
+            indexed.append((k_, depth, ix))
         else:
             k = cl.classify(c, a.body)
             if k in ("foreign", "panic"):
@@ -191,8 +235,12 @@ def closure_events(a, cl, region=None):
         if k is not None and s["cell"][1] == () and s["val"][0] == "I":
             own = Poly.atom(("cell", (s["cell"][0], ())))
             d = s["val"][1] - own
+            absd = [s["val"][1] - ix for (_k, _d, ix) in indexed if (s["val"][1] - ix).is_const()]
             if d.is_const():
                 ev.append((s["site"][0], s["site"][1], "inc", (k, d.const_value(), None), s))
+            elif absd:
+                # absolute store of a cursor next to an index-addressed slot: `*index = i + 1` (forward) or `*index_back = i` (backward)
+                ev.append((s["site"][0], s["site"][1], "inc", (k, ("abs", absd[0].const_value()), None), s))
             else:
                 # value expressed through another upvar's old value (lock-step positions)
                 other = None
@@ -249,7 +297,10 @@ def run_protocol(a, by_bb, entries=(0,), stop=None, inside=None):
                     w[slots.index(e[3])] = min(w[slots.index(e[3])] + 1, 3)
                 elif e[2] == "inc":
                     k, delta, other = e[3]
-                    if delta not in (1, -1):
+                    if isinstance(delta, tuple) and delta[0] == "abs":
+                        if delta[1] not in (0, 1):
+                            bad_inc.append(e)
+                    elif delta not in (1, -1):
                         bad_inc.append(e)
                     i[poss.index(k)] = min(i[poss.index(k)] + 1, 3)
                 elif e[2] in ("foreign", "panic"):
@@ -281,6 +332,10 @@ def check_closure_protocol(a, cl, region=None):
     else:
         info = run_protocol(a, by_bb, region.entries, region.nxt.bb, region.blocks)
     slots, poss = info["slots"], info["positions"]
+    # absolute cursor stores (position upvar -> constant c of `*pos = i + c`) and the index-addressed slots they refer to: whether the constant
+    # fits the traversal direction and the kind of position is the parent's obligation (ownership.link_closure)
+    info["abs"] = {e[3][0]: e[3][1][1] for evs in by_bb.values() for e in evs if e[2] == "inc" and isinstance(e[3][1], tuple)}
+    info["indexed"] = list(getattr(a, "indexed_slots", [])) if region is None else []
     reads = any(e[2] == "read" for evs in by_bb.values() for e in evs)
     writes = any(e[2] == "write" for evs in by_bb.values() for e in evs)
     if not reads and not writes:
